@@ -23,6 +23,9 @@ SFX = {".txt": 1, ".bin": 2}
 def find_data(rng, hl):
     """data strings; for short hash lengths make prefix collisions likely"""
     pool = [f"data{i}" for i in range(40)]
+    if rng.random() < 0.35:
+        base = rng.sample(pool, 3)
+        return base + ["b:" + d for d in base]          # the same content as str and as bytes
     if hl <= 2 and rng.random() < 0.7:
         by = {}
         for d in pool:
@@ -63,11 +66,18 @@ def gen(rng, tier, shape=None):
 
 
 def sha(d):
-    return hashlib.sha256(d.encode()).hexdigest()
+    return hashlib.sha256(split(d)[1].encode()).hexdigest()
+
+
+def split(data):
+    """a payload is 'b:<text>' (bytes, suffix .bin) or plain text (str, suffix .txt)"""
+    return ("bin", data[2:]) if data.startswith("b:") else ("txt", data)
 
 
 def test_src(k, data, arg):
-    return f"def test_{k}():\n    assert outsource({data!r}) == snapshot({arg})\n"
+    kind, content = split(data)
+    lit = repr(content.encode()) if kind == "bin" else repr(content)
+    return f"def test_{k}():\n    assert outsource({lit}) == snapshot({arg})\n"
 
 
 def refs_in(text):
@@ -199,13 +209,13 @@ def compare(case, obs, model_out):
     for ses in obs["log"]:
         evs.append(["start"])
         for dat in ses["outsourced"]:
-            i = data_ids.setdefault(dat, len(data_ids) + 1)
-            evs.append(["out", ["h"] + [int(c, 16) for c in sha(dat)], 1, i])
+            i = data_ids.setdefault(split(dat)[1], len(data_ids) + 1)
+            evs.append(["out", ["h"] + [int(c, 16) for c in sha(dat)], 2 if split(dat)[0] == "bin" else 1, i])
         fl = ses["flags"]
         active = "disable" not in fl and bool(fl)
         if active or not fl:
             written = [ref_sx(n) for n in ses["refs_after"]] if ses["changed"] else []
-            trim = ("trim" in fl) or ("review" in fl)
+            trim = "trim" in fl          # since fix 00e738b review alone never removes unused externals
             if not fl or fl == ["short-report"]:
                 trim = False
             evs.append(["fin", written, [ref_sx(n) for n in ses["refs_after"]], trim])
@@ -221,7 +231,7 @@ def compare(case, obs, model_out):
         model = set()
         for e in p[1:]:
             h = "".join("%x" % int(x) for x in e[0][1:])
-            model.add((h, e[1] == "1", ".txt", inv.get(int(e[3]), "?")))
+            model.add((h, e[1] == "1", ".bin" if e[2] == "2" else ".txt", inv.get(int(e[3]), "?")))
         real = store_from_listing(ses["after_store"], data_ids)
         if model != real:
             diffs.append(("storage-listing", ["C13", "C15"], f"flags {ses['flags']}: model {sorted(model)} real {sorted(real)}"))
